@@ -10,6 +10,7 @@
    `rect-radii` of tools/props/c10.py (comparison inside Coq) and by the construct-vs-expansion oracle. *)
 From Coq Require Import String Ascii.
 From RV Require Import Model.Base Model.GeomPrims Gen.SvgTables Gen.StructTables Gen.LeafViewBox.
+From RV Require Import Model.ShapePath Gen.ShapePaths Gen.UseClip.
 Local Open Scope Q_scope.
 
 (* ---- transforms -------------------------------------------------------------------------------- *)
@@ -146,6 +147,58 @@ Definition leaf_close (tol : Q) (a b : N * Q * ts) : bool :=
   && Qleb (Qabs_ (t_kx (snd a) - t_kx (snd b))) tol && Qleb (Qabs_ (t_sy (snd a) - t_sy (snd b))) tol
   && Qleb (Qabs_ (t_tx (snd a) - t_tx (snd b))) tol && Qleb (Qabs_ (t_ty (snd a) - t_ty (snd b))) tol.
 
+(* ---- use -> symbol: group structure (use_node.rs convert, `linked_to_symbol`) ---------------------------------- *)
+(* convert_children(child, t, .., false, g): convert_group(child, required = !t.is_identity()) with g.transform := t *)
+Definition symbol_children (t : ts) (sym_st : gstyle) (kids : list tnode) : list tnode :=
+  group_or_splice E_Symbol 0%N t (ts_is_identity t) sym_st kids.
+(* orig_ts = the use's resolved transform attribute, new_ts = translate(x, y) . viewBox transform,
+   clip = the clip path made from get_clip_rect's rectangle (when it gives one), st / sym_st = the group-forming style of
+   the use / of the symbol.  With a clip: clip group (id, orig_ts) > forced use group (no id, identity) > children(new_ts);
+   without: use group (id, transform reset to identity) > children(orig_ts . new_ts). *)
+Definition convert_use_symbol (id : N) (orig_ts new_ts : ts) (st sym_st : gstyle) (clip : option N) (kids : list tnode)
+  : list tnode :=
+  match clip with
+  | Some c => [TGroup id orig_ts (clip_only c) [TGroup 0%N ts_identity st (symbol_children new_ts sym_st kids)]]
+  | None => [TGroup id ts_identity st (symbol_children (ts_concat orig_ts new_ts) sym_st kids)]
+  end.
+(* the expansion: a group with the use's transform and style > viewport clip > viewport transform + the symbol's style > copy *)
+Definition expand_use_symbol (id : N) (orig_ts new_ts : ts) (st sym_st : gstyle) (clip : option N) (kids : list tnode)
+  : list tnode :=
+  [TGroup id orig_ts st
+     match clip with
+     | Some c => [TGroup 0%N ts_identity (clip_only c) [TGroup 0%N new_ts sym_st kids]]
+     | None => [TGroup 0%N new_ts sym_st kids]
+     end].
+(* leaves with accumulated opacity, transform, and the clips above them, each with the transform accumulated AT the clip
+   group (= the coordinate system the clip rectangle lives in) *)
+Fixpoint cleaves (o : Q) (t : ts) (cl : list (N * ts)) (n : tnode) : list (N * Q * ts * list (N * ts)) :=
+  match n with
+  | TLeaf id _ => [(id, o, t, cl)]
+  | TGroup _ u st ks =>
+      let t' := ts_concat t u in
+      flat_map (cleaves (o * g_opacity st) t' (match g_clip st with Some c => cl ++ [(c, t')] | None => cl end)) ks
+  end.
+Definition cleaves_of (l : list tnode) := flat_map (cleaves 1 ts_identity []) l.
+(* known class use-symbol-style-in-parent-space: without a viewport clip the use group's transform is reset to the identity and
+   the whole transform goes to the inner group, so a clip-path (mask, filter) of the use is applied in the parent's coordinate
+   system whenever the use has a transform *)
+Definition use_symbol_known_class (clip : option N) (st : gstyle) (orig_ts : ts) : bool :=
+  match clip with Some _ => false | None => match g_clip st with Some _ => negb (ts_is_identity orig_ts) | None => false end end.
+(* clip decision + rectangle of a use -> symbol (Gen.UseClip.get_clip_rect with use_node = the use element) *)
+Definition symbol_clip_rect (overflow : option string) (x y w h : Q) : option qrect :=
+  get_clip_rect false overflow None None true true x y w h.
+(* ... and of a nested svg / an svg referenced by use (use_node = the svg element; us = the use's width / height) *)
+Definition svg_clip_rect (overflow : option string) (us0 us1 : option Q) (has_w has_h : bool) (x y w h : Q) : option qrect :=
+  get_clip_rect true overflow us0 us1 has_w has_h x y w h.
+Definition qrect_close (tol : Q) (a b : option qrect) : bool :=
+  let Qabs_ (v : Q) := if Qleb 0 v then v else - v in
+  let c (u v : Q) := Qleb (Qabs_ (u - v)) tol in
+  match a, b with
+  | Some p, Some q => c (rx p) (rx q) && c (ry p) (ry q) && c (rw p) (rw q) && c (rh p) (rh q)
+  | None, None => true
+  | _, _ => false
+  end.
+
 (* ---- switch ---------------------------------------------------------------------------------------- *)
 Record cond := { c_element : bool;                 (* false = text node *)
                  c_req_ext : bool;                 (* has requiredExtensions *)
@@ -192,6 +245,10 @@ Definition clamp_radii (w h : Q) (r : Q * Q) : Q * Q :=
   (if Qgtb (fst r) (w / RX_DIV) then w / RX_DIV else fst r,
    if Qgtb (snd r) (h / RY_DIV) then h / RY_DIV else snd r).
 Definition rect_radii (w h : Q) (rx ry : option Q) : Q * Q := clamp_radii w h (resolve_rx_ry rx ry).
+
+(* shapes.rs convert_rect: size guards, resolved and clamped radii, then the source-derived builder script *)
+Definition convert_rect (x y w h : Q) (rx ry : option Q) : option (list seg) :=
+  if rect_guard w h then let r := rect_radii w h rx ry in rect_path x y w h (fst r) (snd r) else None.
 
 (* what can be observed on the converted rect: it has curved corners exactly when neither resolved radius is 0
    (`if rx.approx_eq_ulps(&0.0, 4)` draws the plain rectangle; a zero ry makes every arc a straight line) *)
